@@ -155,6 +155,9 @@ type PipeCase struct {
 	DelB   []int  `json:"del_b"`
 	Yield  uint64 `json:"yield"`
 	Reps   int    `json:"reps"`
+	// FailReads > 0: every read of a block index fails from the n-th on (so that several differ
+	// goroutines fail in the same merge); the merge must report the error, not hang
+	FailReads int `json:"fail_reads"`
 }
 
 var subPipe = evid.Register("diff-merge", runPipe)
@@ -171,6 +174,9 @@ func TestPropDiffMerge(t *testing.T) {
 		}
 		for i, k := 0, rapid.IntRange(0, 3).Draw(t, "nd"); i < k; i++ {
 			c.DelB = append(c.DelB, rapid.IntRange(0, n-1).Draw(t, "db"))
+		}
+		if rapid.IntRange(0, 2).Draw(t, "failreads") == 0 {
+			c.FailReads = rapid.IntRange(1, 6).Draw(t, "failAt")
 		}
 		subPipe.Check(t, c)
 	})
@@ -246,6 +252,28 @@ func runPipe(c PipeCase) (o evid.Outcome, err error) {
 	}
 	as, _ := ingestx.Simple(db, a)
 	bsum, _ := ingestx.Simple(db, b)
+	if c.FailReads > 0 {
+		var reads int64
+		db.BeforeRead = func(key []byte) error {
+			if bytes.HasPrefix(key, []byte("blkidx/")) {
+				if addInt64(&reads, 1) >= int64(c.FailReads) {
+					return errors.New("injected read error")
+				}
+			}
+			return nil
+		}
+		verifhook.SetYield(c.Yield)
+		_, derr := diffEvents(db, as, bs)
+		_, merr := mergex.Run(db, bs, [][]byte{as, bsum}, "rows")
+		verifhook.SetYield(0)
+		db.BeforeRead = nil
+		if derr == nil || merr == nil {
+			return o, fmt.Errorf("every block index read from #%d on failed, yet diff (err=%v) or merge (err=%v) reported success", c.FailReads, derr, merr)
+		}
+		o.NonTrivial = true
+		o.Class("injected-read-errors")
+		return o, nil
+	}
 	var firstDiff, firstMerge string
 	for rep := 0; rep < c.Reps; rep++ {
 		verifhook.SetYield(c.Yield + uint64(rep)*104729)
